@@ -47,8 +47,11 @@ type LV struct {
 
 type State struct {
 	R     *Term
+	P     *Term // path condition local to the current function activation (R = R at activation entry && P)
 	heap  map[string]*Term
 	alpha *Term
+	// store-to-load forwarding for slice elements: (heap key, ref, index) -> value just stored there
+	fwd map[string]*Term
 }
 
 func (s *State) clone() *State {
@@ -56,8 +59,17 @@ func (s *State) clone() *State {
 	for k, v := range s.heap {
 		h[k] = v
 	}
-	return &State{R: s.R, heap: h, alpha: s.alpha}
+	var fw map[string]*Term
+	if len(s.fwd) > 0 {
+		fw = make(map[string]*Term, len(s.fwd))
+		for k, v := range s.fwd {
+			fw[k] = v
+		}
+	}
+	return &State{R: s.R, P: s.P, heap: h, alpha: s.alpha, fwd: fw}
 }
+
+func fwdKey(key string, ref, idx *Term) string { return fmt.Sprintf("%s#%d#%d", key, ref.id, idx.id) }
 
 type Obligation struct {
 	Name   string
@@ -68,6 +80,7 @@ type Obligation struct {
 	Pos    string
 	Text   string
 	Clause *Clause
+	Aux    *Term  // alloc obligations: the number of bytes requested
 	Result string // discharged / failed / unknown
 	Solver string
 	Secs   float64
@@ -482,6 +495,11 @@ func (c *FnCtx) heapSet(st *State, key string, v *Term, ref *Term) {
 		}
 	}
 	st.heap[key] = v
+	for k := range st.fwd {
+		if strings.HasPrefix(k, key+"#") {
+			delete(st.fwd, k)
+		}
+	}
 	if c.dry > 0 && ref != nil {
 		c.writeLog = append(c.writeLog, writeRec{key, ref})
 	}
@@ -552,6 +570,11 @@ func (c *FnCtx) rootLoad(st *State, lv *LV) *Term {
 }
 
 func (c *FnCtx) load(st *State, lv *LV) *Term {
+	if lv.elem && len(lv.path) == 0 && st.fwd != nil {
+		if v, ok := st.fwd[fwdKey(lv.key, lv.ref, lv.idx)]; ok {
+			return v
+		}
+	}
 	v := c.rootLoad(st, lv)
 	for _, p := range lv.path {
 		if p.field != "" {
@@ -588,6 +611,12 @@ func (c *FnCtx) store(st *State, lv *LV, v *Term) {
 		seq := f.Select(arr, lv.ref)
 		nv := c.updPath(f.SAt(seq, lv.idx), lv.path, v)
 		c.heapSet(st, lv.key, f.Store(arr, lv.ref, f.SUpd(seq, lv.idx, nv)), lv.ref)
+		if len(lv.path) == 0 {
+			if st.fwd == nil {
+				st.fwd = map[string]*Term{}
+			}
+			st.fwd[fwdKey(lv.key, lv.ref, lv.idx)] = v
+		}
 		return
 	}
 	nv := v
@@ -669,6 +698,14 @@ func (c *FnCtx) isFreshRel(ref *Term) *Term {
 
 func (c *FnCtx) assume(st *State, cond *Term) {
 	st.R = c.f.And(st.R, cond)
+	st.P = c.f.And(st.localP(c.f), cond)
+}
+
+func (s *State) localP(f *TermFactory) *Term {
+	if s.P == nil {
+		return f.True()
+	}
+	return s.P
 }
 
 // assumeWF adds the type invariants of v : typ to the path condition.
